@@ -42,6 +42,9 @@ def unit_decode():
     g = rewrite(g, [(r'CScriptBase::const_iterator', 'const unsigned char*', 2)])
     t += g
     t += block('script/script.cpp', r'^bool CScript::HasValidOps\(\) const', trailing=None, open_at_bol=True)
+    t += block('script/script.cpp', r'^bool CScript::IsPayToScriptHash\(\) const', trailing=None, open_at_bol=True)
+    t += block('script/script.cpp', r'^bool CScript::IsPayToWitnessScriptHash\(\) const', trailing=None, open_at_bol=True)
+    t += block('script/script.cpp', r'^bool CScript::IsWitnessProgram\(int& version, std::vector<unsigned char>& program\) const', trailing=None, open_at_bol=True)
     t += block('script/script.cpp', r'^bool CheckMinimalPush\(', trailing=None)
     t += 'typedef verif_bytes valtype;\n' + block('script/interpreter.cpp', r'^bool CastToBool\(const valtype& vch\)', trailing=None)
     # R-MOVE: `script = std::move(result);` -> copy assignment (no move assignment in the stub class; same resulting value)
